@@ -434,7 +434,7 @@ def simu_cases(draw):
                 dlin=draw(st.integers(-2, 2)) / 2.0, load=draw(st.sampled_from(["none", "nodal", "surf", "volume", "nodal+surf"])),
                 lval=draw(st.integers(-6, 6)) / 2.0, dt=draw(st.sampled_from([0.05, 0.25, 1.0])),
                 init_seed=draw(st.integers(0, 999)), move=draw(st.sampled_from([None, "rotate", "stretch"])),
-                rewind=draw(st.booleans()))
+                rewind=draw(st.booleans()), undamped=draw(st.booleans()))
     if problem == "thermal":
         case.update(k=draw(st.integers(1, 20)) / 4.0, c=draw(st.integers(1, 12)) / 4.0,
                     thickness=1.0 if dim == 1 else draw(st.sampled_from([1.0, 0.5, 2.5])),
@@ -528,9 +528,13 @@ def check_simu(case, rec):
         if scheme == "hyperbolic":
             vv = True  # the mass form uses the value of a vector field
             cM, cK = float(case["ray"][0]), float(case["ray"][1])
-            ded.Set_Rayleigh_Damping_Coefs(coefM=cM, coefK=cK)
             formM = BiLinearForm(aM)
-            formC = BiLinearForm(lambda u, v: cK * aK(u, v) + cM * aM(u, v))
+            if case.get("undamped"):
+                # an undamped second-order model: a mass form and NO damping form (the dedicated simulation has no Rayleigh damping)
+                rec.label("undamped:no_C_form")
+            else:
+                ded.Set_Rayleigh_Damping_Coefs(coefM=cM, coefK=cK)
+                formC = BiLinearForm(lambda u, v: cK * aK(u, v) + cM * aM(u, v))
         weak = Simulations.WeakForms(mesh, Models.WeakForms(field, formK, computeC=formC, computeM=formM,
                                                             thickness=float(mat.thickness)))
         unk_d = unk_w = ["x", "y", "z"][:dim]
